@@ -266,10 +266,6 @@ STATIC_EXCEPTIONS = {
     ("cmd_ical_rpl", "now"): "memo of the last formatted second; stale value only skips a re-format of the same timestamp",
     ("cmd_ical_rpl", "stmp"): "formatted timestamp cached together with `now`",
     ("cmd_ical_rpl", "nrpl"): "reply counter deliberately spans calls until the flush form resets it",
-    # thorough tier (serialiser in evical.c): the DTSTAMP line is formatted once per process and replayed for every task header
-    ("send_ical_hdr", "now"): "process-wide memo of the DTSTAMP second (singleton, reset to 0 only when time() fails)",
-    ("send_ical_hdr", "stmp"): "memoised DTSTAMP text, appended to exactly once under the `now <= 0` guard",
-    ("send_ical_hdr", "ztmp"): "length of the memoised DTSTAMP text, advanced exactly once under the `now <= 0` guard",
 }
 
 
@@ -284,7 +280,8 @@ def r12_3(prog, rep, files=(DAEMON,), rid="R12.3", need_init=True, only=None, ex
                 continue
             statics = [l for l in f.locals if l.get("static") and "const" not in (l.get("t") or "").split("*")[-1]]
             # const-qualified element types are read-only tables
-            statics = [l for l in statics if not (l.get("t") or "").startswith("const ")]
+            # (a pointer to const is itself a mutable object: `static const char *zn`)
+            statics = [l for l in statics if not ((l.get("t") or "").startswith("const ") and "*" not in (l.get("t") or ""))]
             if not statics:
                 continue
             cfg = f.cfg
@@ -468,7 +465,9 @@ def run(prog, rep, tier, snap):
     rep.call(r12_2, prog, rep)
     rep.rule("R12.3", "no function-local static state leaks between calls (definite assignment before use)", 2)
     files = (DAEMON,) if tier == "quick" else (DAEMON, "echsx.c", "echsq.c", "evical.c")
-    rep.call(r12_3, prog, rep, files)
+    from ..rules import state
+    # lazily computed process constants (the DTSTAMP line of the serialiser's header, thorough tier) are discharged by shape, not by name
+    rep.call(r12_3, prog, rep, files, discharge=lambda f_, name_: state.lazy_constant(prog, f_, name_))
     rep.rule("R12.4", "no-run flag agrees with the executor's options and bypasses the spawn", 5)
     rep.call(r12_4, prog, rep, snap)
     rep.rule("R12.7", "every occurrence that comes due reaches the executor (run or reported not run)", 1)
@@ -484,4 +483,7 @@ def run(prog, rep, tier, snap):
     from ..rules import encodings
     rep.rule("R05.4", "MAX-SIMUL sentinel encoding round-trips over the whole field domain (shared with C05)", 1)
     encodings.r05_4(prog, rep, which=("max_simul",))
+    from . import c05
+    rep.rule("R05.7", "calendar-level defaults fill only what the event leaves unset; an event's own limit replaces a calendar-wide one (shared with C05)", 4)
+    rep.call(c05.r05_7, prog, rep)
 READY = True
